@@ -7,6 +7,7 @@ import (
 	"fmt"
 	"go/token"
 	"math/big"
+	"regexp"
 	"go/types"
 	"strings"
 
@@ -14,6 +15,8 @@ import (
 )
 
 var bigZero = big.NewInt(0)
+
+var traceRe = regexp.MustCompile(`\b(called|failed|result|arg|recv|ncalls|before|nocall|onlycalls|callsto|firstcall)\(`)
 
 const maxInlineDepth = 4
 
@@ -578,6 +581,9 @@ func (x *Exec) callByContract(fr *Frame, st *State, in ssa.Instruction, fn *ssa.
 	bindResults(post, sig, ct, res)
 	post.old = &SpecEnv{x: x, st: st.viewWithHeap(snapshot), vars: post.vars, pkg: env.pkg, lets: ct.Lets}
 	for _, cl := range ct.Ensures {
+		if traceRe.MatchString(cl.Text) {
+			continue // clauses about the callee's own call trace say nothing about the caller's state
+		}
 		t, err := post.EvalBool(cl.Node)
 		if err != nil {
 			x.abort("ensures of %s at call: %v", ct.Key, err)
